@@ -23,6 +23,8 @@ func checkC11(c *Ctx) {
 	r.Rule("R08.1", "(shared with C08) nothing on the print path writes memory that outlives the call (fields of package-level objects included): text rendered for a record of one format is never kept for another record")
 	r.Rule("R08.2", "(shared with C08) lists appended to or reordered in place belong to this call")
 	r.Rule("R02.3", "(shared with C02) every record has the shape of the format in force: the only payload that is not the finished buffer is the blank line of Print/Println, taken exactly for lvl == AlwaysLevel with a blank message")
+	r.Rule("R10.9", "(shared with C10) isolation of anonymous children: two New(\"\") children are distinct loggers (the caller's name is the registry key only when it is a non-empty string)")
+	r.Rule("R04.2", "(shared with C04) a JSON logger emits JSON: in JSON mode everything written verbatim is encoder text, a number, a time, a quoted string or MarshalJSON output (raw MarshalText output is not)")
 	r.Rule("R11.5", "isolation: no store to useJSON/useColor of another logger (shared with R10.1)")
 	for _, tags := range c.Configs([]string{""}, []string{"", "verbose", "hint"}) {
 		p := c.Prog(tags)
@@ -41,6 +43,8 @@ func checkC11(c *Ctx) {
 		// the record's shape must come from this record's mode only: no pooled encoder field is read stale in any mode
 		c09Pooled(c, p, m, "R11.6", feasibleModes)
 		c11NoEscapes(c, p, m)
+		childNameDecision(c, p, "R10.9")
+		emissionCommon(c, p, m, Mode{true, true}, "R04.2")
 		c02Newline(c, p, m)
 		c09Globals(c, p, m)
 		c08Stores(c, p, m)
